@@ -910,7 +910,8 @@ def extract_item(kind, kv, sections, unit_rewrites, extra_drop, audit, verus):
             if not mm:
                 raise ExtractError(f"bad //@rewrite in {item}")
             rule = 'R7' if 'R7' in mm.group(3) else 'R6'
-            local_rw.append((rule, unq(mm.group(1)), unq(mm.group(2)), True))
+            # `optional`: a loop-shape rewrite that is simply not needed when the source already has the target shape
+            local_rw.append((rule, unq(mm.group(1)), unq(mm.group(2)), 'optional' not in mm.group(3)))
         elif d == 'havoc':
             mm = re.match(r'^"((?:[^"\\]|\\.)*)"\s*(?:type="([^"]*)")?', arg)
             havocs.append((unq(mm.group(1)), mm.group(2)))
